@@ -15,7 +15,13 @@ import NeumannModel.Common.FramedLog
         handle_request_vote            [TermAndVote(rv.term, None)] if higher term, then
                                        [TermAndVote(term, Some(cand))] iff the vote is granted
         handle_request_vote_response / handle_pre_vote_response / handle_append_entries_response
-                                       TermAndVote(t, None) on a higher term (role permitting)
+                                       TermAndVote(t, None) on a higher term (role permitting);
+                                       a granted vote is counted (`votes_received`), a quorum ⇒ become_leader;
+                                       a granted pre-vote is counted (`pre_votes_received`), a quorum ⇒
+                                       start_election
+        start_pre_vote / handle_pre_vote  no record (the answer carries the current term)
+        handle_timeout_now             sender or named leader is the believed leader and the term matches ⇒
+                                       start_election
         handle_append_entries          TermAndVote(ae.term, None) if higher term; then per entry
                                        (append_leader_entries): new index ⇒ LogEntryFull;
                                        term conflict ⇒ LogTruncate{from_index}, LogEntryFull
@@ -116,11 +122,14 @@ def recoverBytes (crc : List Nat → Nat) (deser : List Nat → Option WalEntry)
 
 /-! ### `RaftWal::append`: size limit and rotation
 
-  `append` → `check_size_limit(write_size)`: when `current_size + write_size > max_size_bytes` and
-  `auto_rotate` (the default, and what `RaftNode::with_wal` → `RaftWal::open` uses: 1 GiB) →
-  `rotate()`: `<wal>.k` → `<wal>.(k+1)` (the oldest beyond `max_rotated_files` deleted), the live file
-  renamed to `<wal>.1`, a fresh empty live file created; then the record is written to it.
-  `replay` / `from_wal` / `RaftNode::with_wal` read the live file only. -/
+  `append` → `check_size_limit(write_size)`: when `current_size + write_size > max_size_bytes`
+    * `auto_rotate` (the `WalConfig` default) → `rotate()`: `<wal>.k` → `<wal>.(k+1)` (the oldest beyond
+      `max_rotated_files` deleted), the live file renamed to `<wal>.1`, a fresh empty live file created;
+      then the record is written to it;
+    * otherwise → `Err(SizeLimitExceeded)`, nothing written (an ordinary failed append, see `stepFail`).
+  `replay` / `from_wal` / `RaftNode::with_wal` read the live file only.
+  `RaftNode::with_wal` opens its WAL with `auto_rotate = false, max_size_bytes = u64::MAX` since fix
+  c45da25c (`nodeWalCfg`); before, with the defaults (`oldNodeWalCfg`: 1 GiB, rotating). -/
 
 structure WalFiles where
   /-- bytes of the live file (`current_size` = its length) -/
@@ -129,15 +138,30 @@ structure WalFiles where
   rotated : List (List Nat) := []
   deriving DecidableEq, Repr
 
-/-- `RaftWal::append(entry)` with `p = bitcode::serialize(entry)` -/
-def walAppend (crc : List Nat → Nat) (maxSize maxRot : Nat) (w : WalFiles) (p : List Nat) : WalFiles :=
-  let r := FramedLog.encodeRec crc p
-  if w.cur.length + r.length > maxSize then
-    { cur := r, rotated := (w.cur :: w.rotated).take (max maxRot 1) }
-  else { w with cur := w.cur ++ r }
+/-- the part of `WalConfig` that `append` looks at -/
+structure WalCfg where
+  maxSize : Nat
+  maxRot : Nat := 3
+  autoRotate : Bool := true
+  deriving DecidableEq, Repr
 
-def walAppendAll (crc : List Nat → Nat) (maxSize maxRot : Nat) (w : WalFiles) (ps : List (List Nat)) : WalFiles :=
-  ps.foldl (walAppend crc maxSize maxRot) w
+/-- what `RaftNode::with_wal` passes to `open_with_config` -/
+def nodeWalCfg : WalCfg := { maxSize := 18446744073709551615, maxRot := 3, autoRotate := false }
+
+/-- `WalConfig::default()`, what `with_wal` used before fix c45da25c -/
+def oldNodeWalCfg : WalCfg := { maxSize := 1073741824, maxRot := 3, autoRotate := true }
+
+/-- `RaftWal::append(entry)` with `p = bitcode::serialize(entry)`; `none` = `Err(SizeLimitExceeded)` -/
+def walAppend (crc : List Nat → Nat) (c : WalCfg) (w : WalFiles) (p : List Nat) : Option WalFiles :=
+  let r := FramedLog.encodeRec crc p
+  if w.cur.length + r.length > c.maxSize then
+    if c.autoRotate then some { cur := r, rotated := (w.cur :: w.rotated).take (max c.maxRot 1) }
+    else none
+  else some { w with cur := w.cur ++ r }
+
+/-- a series of appends; a refused one leaves the files as they are -/
+def walAppendAll (crc : List Nat → Nat) (c : WalCfg) (w : WalFiles) (ps : List (List Nat)) : WalFiles :=
+  ps.foldl (fun w p => (walAppend crc c w p).getD w) w
 
 /-! ### the node -/
 
@@ -168,7 +192,20 @@ structure Node where
   role : Role := .follower
   /-- `snapshot_state.last_snapshot.last_included_index` (volatile: a restart forgets it) -/
   snapIdx : Option Nat := none
+  /-- `votes_received` (volatile) -/
+  votesReceived : List Nat := []
+  /-- `pre_votes_received` (volatile) -/
+  preVotes : List Nat := []
+  /-- `in_pre_vote` (volatile) -/
+  inPreVote : Bool := false
+  /-- `leadership.current_leader` (volatile) -/
+  leader : Option Nat := none
+  /-- `peers.len()` (the harness' cluster: 4 peers, quorum 3) -/
+  npeers : Nat := 4
   deriving DecidableEq, Repr
+
+/-- `quorum_size()` = `(peers.len() + 1) / 2 + 1` -/
+def quorum (n : Node) : Nat := (n.npeers + 1) / 2 + 1
 
 /-- `RaftNode::with_wal` after `from_wal` succeeded -/
 def restart (id : Nat) (s : RState) : Node :=
@@ -178,8 +215,11 @@ def restart (id : Nat) (s : RState) : Node :=
 inductive Event where
   | startElection
   | requestVote (term cand lastIdx lastTerm : Nat)
-  | voteResponse (term : Nat)                 -- RequestVoteResponse{term, vote_granted:false}
-  | preVoteResponse (term : Nat) (inPreVote : Bool)
+  | voteResponse (frm term : Nat) (granted : Bool)     -- RequestVoteResponse{term, vote_granted} from `frm`
+  | startPreVote
+  | preVote (term cand lastIdx lastTerm : Nat)         -- PreVote request (answered, nothing changes)
+  | preVoteResponse (frm term : Nat) (granted : Bool)
+  | timeoutNow (frm term leaderId : Nat)               -- leadership transfer: elect immediately
   | becomeLeader
   | appendEntries (term leader prevIdx prevTerm : Nat) (entries : List (Nat × Nat))
   | appendResponse (term : Nat)               -- AppendEntriesResponse{term, ..} seen by a leader
@@ -195,6 +235,7 @@ inductive Reply where
   | notLeader
   | snapshot (ok : Bool)
   | walFailed                     -- `propose` → Err(StorageError "WAL log persist failed")
+  | preVote (term : Nat)          -- PreVoteResponse{term, ..} (`vote_granted` depends on the clock)
   deriving DecidableEq, Repr
 
 /-- what the outside world has been told; the obligations of the property -/
@@ -264,13 +305,22 @@ def snapStale (existing : Option Nat) (incoming : Nat) : Bool :=
   | some x => decide (incoming ≤ x)
   | none => false
 
+/-- `start_election` — from the election timer, from `handle_pre_vote_response` (quorum of pre-votes)
+    and from `handle_timeout_now` (leadership transfer) -/
+def electOut (n : Node) : StepOut :=
+  let t := n.term + 1
+  { micros := [.wal (.termAndVote t (some n.id)), .ackTerm t, .ackVote t n.id],
+    node := { n with term := t, votedFor := some n.id, role := .candidate, votesReceived := [n.id] },
+    reply := .none }
+
+/-- "a response carries a higher term": persist_term_and_vote(t, None), then step down -/
+def stepDownOut (n : Node) (t : Nat) : StepOut :=
+  { micros := [.wal (.termAndVote t none), .ackTerm t],
+    node := { n with term := t, votedFor := none, role := .follower }, reply := .none }
+
 /-- one handler call: WAL records first, then the acknowledgements it sends -/
 def step (n : Node) : Event → StepOut
-  | .startElection =>
-    let t := n.term + 1
-    { micros := [.wal (.termAndVote t (some n.id)), .ackTerm t, .ackVote t n.id],
-      node := { n with term := t, votedFor := some n.id, role := .candidate },
-      reply := .none }
+  | .startElection => electOut n
   | .requestVote t cand li lt =>
     let m1 : List Micro := (preHigher n t .follower).1
     let n1 : Node := (preHigher n t .follower).2
@@ -283,18 +333,33 @@ def step (n : Node) : Event → StepOut
           node := { n1 with votedFor := some cand }, reply := .vote n1.term true }
       else { micros := m1 ++ [.ackTerm n1.term], node := n1, reply := .vote n1.term false }
     else { micros := m1 ++ [.ackTerm n1.term], node := n1, reply := .vote n1.term false }
-  | .voteResponse t =>
-    if n.role = .candidate ∧ t > n.term then
-      { micros := [.wal (.termAndVote t none), .ackTerm t],
-        node := { n with term := t, votedFor := none, role := .follower }, reply := .none }
+  | .voteResponse frm t granted =>
+    if n.role ≠ .candidate then { micros := [], node := n, reply := .none }
+    else if t > n.term then stepDownOut n t
+    else if granted ∧ t = n.term ∧ frm ∉ n.votesReceived then
+      let vs := n.votesReceived ++ [frm]
+      if vs.length ≥ quorum n then
+        -- become_leader
+        { micros := [], node := { n with votesReceived := vs, role := .leader, leader := some n.id }, reply := .none }
+      else { micros := [], node := { n with votesReceived := vs }, reply := .none }
     else { micros := [], node := n, reply := .none }
-  | .preVoteResponse t inPre =>
-    if inPre ∧ t > n.term then
-      { micros := [.wal (.termAndVote t none), .ackTerm t],
-        node := { n with term := t, votedFor := none, role := .follower }, reply := .none }
+  | .startPreVote =>
+    { micros := [], node := { n with inPreVote := true, preVotes := [n.id] }, reply := .none }
+  | .preVote _ _ _ _ => { micros := [.ackTerm n.term], node := n, reply := .preVote n.term }
+  | .preVoteResponse frm t granted =>
+    if ¬ n.inPreVote then { micros := [], node := n, reply := .none }
+    else if t > n.term then stepDownOut { n with inPreVote := false } t
+    else if granted ∧ t = n.term ∧ frm ∉ n.preVotes then
+      let vs := n.preVotes ++ [frm]
+      if vs.length ≥ quorum n then electOut { n with preVotes := vs, inPreVote := false }
+      else { micros := [], node := { n with preVotes := vs }, reply := .none }
     else { micros := [], node := n, reply := .none }
-  | .becomeLeader => { micros := [], node := { n with role := .leader }, reply := .none }
-  | .appendEntries t _leader prevIdx prevTerm ents =>
+  | .timeoutNow frm t lid =>
+    if n.leader ≠ some frm ∧ n.leader ≠ some lid then { micros := [], node := n, reply := .none }
+    else if t ≠ n.term then { micros := [], node := n, reply := .none }
+    else electOut n
+  | .becomeLeader => { micros := [], node := { n with role := .leader, leader := some n.id }, reply := .none }
+  | .appendEntries t ldr prevIdx prevTerm ents =>
     let m1 : List Micro := (preHigher n t .follower).1
     let n1 : Node := (preHigher n t .follower).2
     if t = n1.term then
@@ -302,14 +367,12 @@ def step (n : Node) : Event → StepOut
         let r := appendLoop n1.log (mkEntries prevIdx ents)
         let mi := min (prevIdx + ents.length) r.2.length
         { micros := m1 ++ r.1.map Micro.wal ++ [.ackTerm n1.term, .ackLog (r.2.filter (fun e => decide (e.index ≤ mi)))],
-          node := { n1 with log := r.2, role := .follower }, reply := .append n1.term true mi }
-      else { micros := m1 ++ [.ackTerm n1.term], node := { n1 with role := .follower },
+          node := { n1 with log := r.2, role := .follower, leader := some ldr }, reply := .append n1.term true mi }
+      else { micros := m1 ++ [.ackTerm n1.term], node := { n1 with role := .follower, leader := some ldr },
              reply := .append n1.term false 0 }
     else { micros := m1 ++ [.ackTerm n1.term], node := n1, reply := .append n1.term false 0 }
   | .appendResponse t =>
-    if n.role = .leader ∧ t > n.term then
-      { micros := [.wal (.termAndVote t none), .ackTerm t],
-        node := { n with term := t, votedFor := none, role := .follower }, reply := .none }
+    if n.role = .leader ∧ t > n.term then stepDownOut n t
     else { micros := [], node := n, reply := .none }
   | .propose cmd =>
     if n.role = .leader then
@@ -346,21 +409,22 @@ def installSnapshotOld (n : Node) (lastTerm : Nat) (ents : List (Nat × Nat)) : 
 /-! ### handlers while the WAL rejects every append
 
   `RaftWal::append` returns `Err` before writing anything (e.g. `check_space`: less than
-  `min_free_space_bytes` left, or the directory is gone); `persist_term_and_vote` gives up after
-  three attempts.  Every handler then takes its failure branch:
+  `min_free_space_bytes` left, the directory is gone, or — for the node's WAL, which since fix
+  c45da25c is opened with `auto_rotate = false` — the size limit); `persist_term_and_vote` gives up
+  after three attempts.  Every handler then takes its failure branch:
     start_election, the three step-downs      return without touching memory
     handle_request_vote                       answers with the OLD term, vote not granted
     handle_append_entries                     higher term: answers failure with the old term;
                                               otherwise `append_leader_entries` (below)
     propose                                   pushes, fails to persist, pops, `Err`
     install_snapshot                          `Err` before the in-memory switch
-  `append_leader_entries` (code as it is): a new entry is pushed into the in-memory log BEFORE
-  `persist_log_entry`, and on failure the function returns `false` without popping it; on a
-  conflict the result of the `LogTruncate` append is ignored (`let _ =`), the in-memory log is
-  truncated and the new entry pushed, then `persist_log_entry` fails → `false`.  Either way memory now
-  holds an entry the WAL does not.  `appendOneFixed`-style behaviour (persist first, change memory
-  after) is what /verif/proposed/C10-append-entries-persist-first.diff does; it is modelled as
-  `stepFailFixed` for the theorem that the repair is sufficient. -/
+  `append_leader_entries` (since fix 54033160): `persist_log_entry` first, the in-memory push after;
+  on a conflict the `LogTruncate` append is checked before the in-memory truncation.  A call whose
+  appends all fail therefore leaves the log alone (`stepFail`).
+  BEFORE that fix (`stepFailOld`, kept for `acked_entry_lost_before_fix_witness`): a new entry was
+  pushed into the in-memory log BEFORE `persist_log_entry` and not popped on failure; on a conflict
+  the result of the `LogTruncate` append was ignored, the in-memory log truncated and the new entry
+  pushed, then `persist_log_entry` failed.  Either way memory held an entry the WAL did not. -/
 
 /-- one iteration of `append_leader_entries`, every WAL append failing: (keep going?, log) -/
 def appendOneFail (log : List LogEntry) (e : LogEntry) : Bool × List LogEntry :=
@@ -379,14 +443,28 @@ def appendLoopFail (log : List LogEntry) : List LogEntry → Bool × List LogEnt
 /-- does `append_leader_entries` need the WAL at all for these entries? (no: all already held) -/
 def appendNeedsWal (log : List LogEntry) (es : List LogEntry) : Bool := !(appendLoopFail log es).1
 
-/-- one handler call while every WAL append fails (code as it is) -/
-def stepFail (n : Node) : Event → StepOut
+/-- one handler call while every WAL append fails, code BEFORE fix 54033160 -/
+def stepFailOld (n : Node) : Event → StepOut
   | .startElection => { micros := [], node := n, reply := .none }
   | .requestVote _ _ _ _ => { micros := [.ackTerm n.term], node := n, reply := .vote n.term false }
-  | .voteResponse _ => { micros := [], node := n, reply := .none }
-  | .preVoteResponse _ _ => { micros := [], node := n, reply := .none }
-  | .becomeLeader => { micros := [], node := { n with role := .leader }, reply := .none }
-  | .appendEntries t _leader prevIdx prevTerm ents =>
+  | .voteResponse frm t granted =>
+    -- only the step-down writes; counting votes and `become_leader` do not touch the WAL
+    if n.role = .candidate ∧ t > n.term then { micros := [], node := n, reply := .none }
+    else step n (.voteResponse frm t granted)
+  | .startPreVote => step n .startPreVote
+  | .preVote t c li lt => step n (.preVote t c li lt)
+  | .preVoteResponse frm t granted =>
+    if ¬ n.inPreVote then { micros := [], node := n, reply := .none }
+    else if t > n.term then { micros := [], node := n, reply := .none }
+    else if granted ∧ t = n.term ∧ frm ∉ n.preVotes then
+      let vs := n.preVotes ++ [frm]
+      -- quorum: `in_pre_vote` is cleared, then `start_election` gives up at its failed append
+      if vs.length ≥ quorum n then { micros := [], node := { n with preVotes := vs, inPreVote := false }, reply := .none }
+      else { micros := [], node := { n with preVotes := vs }, reply := .none }
+    else { micros := [], node := n, reply := .none }
+  | .timeoutNow _ _ _ => { micros := [], node := n, reply := .none }
+  | .becomeLeader => { micros := [], node := { n with role := .leader, leader := some n.id }, reply := .none }
+  | .appendEntries t ldr prevIdx prevTerm ents =>
     if t > n.term then { micros := [.ackTerm n.term], node := n, reply := .append n.term false 0 }
     else if t = n.term then
       if logOk n.log prevIdx prevTerm then
@@ -395,11 +473,12 @@ def stepFail (n : Node) : Event → StepOut
         if r.1 then
           -- nothing to write: the ordinary success path
           { micros := [.ackTerm n.term, .ackLog (r.2.filter (fun e => decide (e.index ≤ mi)))],
-            node := { n with log := r.2, role := .follower }, reply := .append n.term true mi }
+            node := { n with log := r.2, role := .follower, leader := some ldr }, reply := .append n.term true mi }
         else
-          { micros := [.ackTerm n.term], node := { n with log := r.2, role := .follower },
+          { micros := [.ackTerm n.term], node := { n with log := r.2, role := .follower, leader := some ldr },
             reply := .append n.term false mi }
-      else { micros := [.ackTerm n.term], node := { n with role := .follower }, reply := .append n.term false 0 }
+      else { micros := [.ackTerm n.term], node := { n with role := .follower, leader := some ldr },
+             reply := .append n.term false 0 }
     else { micros := [.ackTerm n.term], node := n, reply := .append n.term false 0 }
   | .appendResponse _ => { micros := [], node := n, reply := .none }
   | .propose _ =>
@@ -407,10 +486,10 @@ def stepFail (n : Node) : Event → StepOut
     else { micros := [], node := n, reply := .notLeader }
   | .installSnapshot _ _ _ => { micros := [], node := n, reply := .snapshot false }
 
-/-- the same with `append_leader_entries` repaired (persist first, then change memory; the
-    `LogTruncate` result checked): a failing call leaves the log alone -/
-def stepFailFixed (n : Node) : Event → StepOut
-  | .appendEntries t _leader prevIdx prevTerm ents =>
+/-- one handler call while every WAL append fails (code as it is: persist first, then change
+    memory; the `LogTruncate` result checked): a failing call leaves the log alone -/
+def stepFail (n : Node) : Event → StepOut
+  | .appendEntries t ldr prevIdx prevTerm ents =>
     if t > n.term then { micros := [.ackTerm n.term], node := n, reply := .append n.term false 0 }
     else if t = n.term then
       if logOk n.log prevIdx prevTerm then
@@ -418,13 +497,14 @@ def stepFailFixed (n : Node) : Event → StepOut
         let mi := min (prevIdx + ents.length) n.log.length
         if r.1 then
           { micros := [.ackTerm n.term, .ackLog (n.log.filter (fun e => decide (e.index ≤ mi)))],
-            node := { n with role := .follower }, reply := .append n.term true mi }
+            node := { n with role := .follower, leader := some ldr }, reply := .append n.term true mi }
         else
-          { micros := [.ackTerm n.term], node := { n with role := .follower },
+          { micros := [.ackTerm n.term], node := { n with role := .follower, leader := some ldr },
             reply := .append n.term false mi }
-      else { micros := [.ackTerm n.term], node := { n with role := .follower }, reply := .append n.term false 0 }
+      else { micros := [.ackTerm n.term], node := { n with role := .follower, leader := some ldr },
+             reply := .append n.term false 0 }
     else { micros := [.ackTerm n.term], node := n, reply := .append n.term false 0 }
-  | e => stepFail n e
+  | e => stepFailOld n e
 
 /-! ### obligations (ghost state) and executions with crashes -/
 
@@ -492,9 +572,9 @@ inductive ActF where
   | crashFail (e : Event) (k : Nat) -- the process dies `k` micro steps into a handler whose appends fail
   deriving Repr
 
-/-- `fixed` selects `append_leader_entries` as it is (`false`) or repaired (`true`) -/
+/-- `fixed = true`: the code as it is; `fixed = false`: `append_leader_entries` before fix 54033160 -/
 def stepM (fixed fail : Bool) (n : Node) (e : Event) : StepOut :=
-  if fail then (if fixed then stepFailFixed n e else stepFail n e) else step n e
+  if fail then (if fixed then stepFail n e else stepFailOld n e) else step n e
 
 def execActF (fixed : Bool) (σ : Sys) : ActF → Sys
   | .ev e => applyOut σ (stepM fixed false σ.node e)
